@@ -284,6 +284,7 @@ def peers(tier: str, prop: str) -> list[dict]:
         dict(mode="gym_collect_off", S=5, A=3, T=3, starts=4),
         dict(mode="lerax_to_gym", S=5, A=3, stack=["TimeLimit"]),
         dict(mode="lerax_to_gym", S=4, A=2, stack=[]),
+        dict(mode="lerax_to_gym_cont", S=0, A=2, limit=3),   # continuous initial states: every auto-reset must draw a NEW one
         dict(mode="lerax_to_gymnax", S=5, A=3, stack=["TimeLimit"]),
         dict(mode="gymnax_to_lerax", S=0, A=2),
         # non-default Gymnax parameters that the RESET depends on (start position at the centre, smaller goal circle, short episodes)
@@ -292,7 +293,7 @@ def peers(tier: str, prop: str) -> list[dict]:
     if prop == "C10":
         return [b for b in base if b["mode"].startswith("gym_collect")]
     if prop == "C01":
-        return [b for b in base if b["mode"] in ("gym_direct", "lerax_to_gym", "gymnax_to_lerax")]
+        return [b for b in base if b["mode"] in ("gym_direct", "lerax_to_gym", "lerax_to_gym_cont", "gymnax_to_lerax")]
     return base
 
 
